@@ -157,6 +157,33 @@ CLAIMS = {
         "note": _TRUST + "Known findings: F5 (manager-level resend has no body_pos), F6a/F6b (bodies without tell() / iterators are re-sent empty). F13 (303 + seekable body raised ValueError) was found by these rules' development and repaired in /repo.",
         "technique": "static analysis: decision-table extraction on request()/body_to_chunks/rewind_body, provenance tags at resend sites, sibling cross-check of classifiers",
     },
+    "C12": {
+        "text": ("Decides necessary structural conditions only: on every path of read/read1 that delivers freshly decoded bytes the "
+                 "decoded-byte queue is known empty, otherwise bytes are delivered from the queue after the new bytes were put (single "
+                 "ordered route); every yield in stream/read_chunked is guarded by the truthiness of what it yields; a zstandard "
+                 "decompressobj is never fed when it may be at eof and a gzip decoder starts a new decompressobj before feeding "
+                 "unused_data; MultiDecoder undoes codings in reverse header order and flushes the decoder applied last; each optional "
+                 "codec is advertised, constructed and error-mapped under one guard; flush_decoder is true exactly for read-all or a "
+                 "sized read that returned no data; stream() loops until the stdlib response is closed and the queue is empty; "
+                 "readinto/iteration/.data go through the same readers. Declined (most of the statement): equality of concatenations over "
+                 "arbitrary call sequences, the read(n) size contract, segmentation independence."),
+        "note": _TRUST + "zlib/zstandard decompressobj API typestate is a small frozen table (single-use after eof for zstd; unused_data for zlib). F7b (read_chunked yields past the queue) is a known finding; F7 (read) and F8 (zstd frame boundary) were repaired.",
+        "technique": "static analysis: provenance typestate of delivered bytes by abstract interpretation, API-typestate of decoder objects with object-invariant entry state, structural queries",
+    },
+    "C13": {
+        "text": ("Decides that every end-of-stream branch with bytes outstanding raises: the decision table of _raw_read shows (no data, "
+                 "amt != 0, enforcement on, length_remaining neither None nor 0) => IncompleteRead (translated to ProtocolError by the "
+                 "catcher) with the stdlib response closed first, except read() without amount where http.client raises it itself (read "
+                 "from its source); an unparsable chunk-size line closes and raises InvalidChunkLength/ProtocolError, the size is "
+                 "int(line-before-';', 16), an empty line is not zero, the chunk loop ends only at chunk_left == 0; chunk payloads and "
+                 "CRLFs are read only via _safe_read; _decode wraps DECODER_ERROR_CLASSES (zlib.error, OSError + enabled codecs) into "
+                 "DecodeError, an incomplete zstd frame raises at flush, only trailing gzip garbage after a full member is ignored; "
+                 "conflicting Content-Length raises InvalidHeader (not a ValueError), chunked ignores length; unclean exits close the "
+                 "connection (shared C01-R5/R6); preload and .data use read(); enforce_content_length defaults to True and is forwarded "
+                 "at every hop. Declined: enumeration over every cut position."),
+        "note": _TRUST + "http.client's _safe_read raising IncompleteRead is read from its source. F12 (read1 without amount) was repaired.",
+        "technique": "static analysis: decision-table extraction on _raw_read, exceptional-path typestate on the chunk parser, handler/lattice queries",
+    },
     "C16": {
         "text": ("Deliberately narrow. Decides only the storage discipline behind the multimap: every access to the storage dict uses a "
                  "lower-cased key; every list stored is built in that statement, copies build per-key fresh lists and no method returns a "
@@ -205,4 +232,4 @@ CLAIMS = {
 _PENDING = "check not built yet in this session (static rules designed in DESIGN.md section 5); will be claimed once its rules run clean"
 
 NOT_APPLICABLE = {pid: _PENDING for pid in
-                  ["C12", "C13", "C14", "C15", "C19"]}
+                  ["C14", "C15", "C19"]}
